@@ -28,10 +28,10 @@ from harness import tlc  # noqa: E402
 LAWS = ["TypeOK", "LawSwap", "LawStar", "LawOpenRange", "LawDup", "LawOrder", "LawUnion",
         "LawUidSkips", "LawRejected", "LawSeq", "LawSearchLower", "LawVerdict"]
 
-QUICK = dict(consts=dict(MaxN=5, SparseN=5, Full3N=0, Bnd3N=2, Bnd3SparseN=0),
+QUICK = dict(consts=dict(MaxN=5, SparseN=5, Full3N=0, Bnd3N=2, Bnd3SparseN=0, Cover2N="{0, 2, 5}"),
              l1_chunk=3000, l2_chunk=260, destructive_every=5,
              random_groups=8, random_sets=120, random_maxn=12, tlc_timeout=600)
-THOROUGH = dict(consts=dict(MaxN=5, SparseN=5, Full3N=3, Bnd3N=5, Bnd3SparseN=5),
+THOROUGH = dict(consts=dict(MaxN=5, SparseN=5, Full3N=3, Bnd3N=5, Bnd3SparseN=5, Cover2N="{0, 1, 2, 3, 4, 5}"),
                 l1_chunk=6000, l2_chunk=130, destructive_every=1,
                 random_groups=120, random_sets=400, random_maxn=16, tlc_timeout=3000)
 
@@ -308,12 +308,12 @@ def fn(ck, a):
             x = res_by[gid]
             c = x["cases"][idx - 1]
             clause = f"C15.{op_class(op)}.{what}"
-            size = (len(c["set"]), sum(len(e) for e in c["set"]), len(c.get("uids", x["uids"])),
-                    seqset.render(c["set"]))
-            per.setdefault(clause, []).append((size, gid, idx, op))
-        for clause, lst in sorted(per.items()):
+            size = (any(0 in e for e in c["set"]), len(c["set"]), sum(len(e) for e in c["set"]),
+                    len(c.get("uids", x["uids"])), seqset.render(c["set"]))
+            per.setdefault((clause, op), []).append((size, gid, idx, op))
+        for (clause, _), lst in sorted(per.items()):
             lst.sort()
-            for size, gid, idx, op in lst[:3]:
+            for size, gid, idx, op in lst[:2]:
                 x = res_by[gid]
                 c = x["cases"][idx - 1]
                 uids = c.get("uids", x["uids"])
@@ -326,7 +326,7 @@ def fn(ck, a):
                                                                [c.get('pst'), c.get('parsed')]),
                     replay_obj={"clause": clause, "set_text": seqset.render(c["set"]),
                                 "uids_before": uids, "observed": this or [c.get("pst"), c.get("parsed")],
-                                "n_cases_failing_this_clause": len(lst),
+                                "n_cases_failing_this_clause_in_this_operation": len(lst),
                                 "job": {"layer": job["layer"], "group": dict(job["group"], cover=[c["set"]]),
                                         "cases": [c["set"]],
                                         "destructive": [c["set"]] if job["layer"] == 2 else []}})
